@@ -722,3 +722,20 @@ _extend("C18", [], _SB, [("C18_bdump_then_bload_input", "SizeBounds", "bdump_the
 APPEND["C09"] = ("""(* the well-formedness Dump needs, from a bound on the input length alone *)
 From BCL Require Import Proofs.ParserTotal Proofs.SizeBounds.""",
 [("C09_from_parse_input", "SizeBounds", "parse_wf_input", "")])
+
+# ---- LexWrite.v: the lexer reads the writer's text back as the writer's tokens ----
+_extend("C05", [("""Bytes -> tokens (the lexer on the written text) is exercised by the
+   harness only.""", """The last link, bytes -> tokens, is Proofs/LexWrite.v: for token lists whose
+   texts are what the lexer produces for their type (`lexable`: ASCII identifiers that are not keywords, digit strings,
+   float texts with a fraction or an exponent, quoted bodies without raw quote / newline, the fixed keywords and
+   punctuation) the lexer reads `render ts` (texts joined by any non-empty ASCII white space) back as exactly those
+   tokens plus tEOF (C05_lex_render), hence for the writer's output C05_text_roundtrip: the TEXT of a value is accepted
+   by Parse, and executing the compiled program and binding the result into a zero target yields exactly the value.
+   Premises that remain on the caller: keys and block types are non-keyword ASCII identifiers and each float written
+   has a float text that parses to it (`lex_ok`, `gtext_ok`): float printing is not modelled.""")],
+        "From BCL Require Import Proofs.LayoutProofs Proofs.LexWrite.",
+        [("C05_lex_render", "LexWrite", "lex_render", ""),
+         ("C05_lex_render_any_sep", "LexWrite", "lex_render_any_sep", ""),
+         ("C05_text_parse", "LexWrite", "text_parse", "", "check"),
+         ("C05_text_roundtrip", "LexWrite", "C05_text_roundtrip", "", "check"),
+         ("C05_text_roundtrip_slice", "LexWrite", "C05_text_roundtrip_slice", "", "check")])
